@@ -62,16 +62,18 @@ mod neg_basic__exp;
 mod agg_depth__to;
 mod agg_user__par;
 mod agg_bound_mix__par;
-mod disj__par;
-mod disj__src1;
-mod disj__ren;
-mod disj_nested__exppar;
-mod rep_expr__pari;
-mod neg_in_disj__ser;
-mod mac_basic__to;
-mod mac_basic__redecl;
-mod mac_capture__pari;
-mod mac_disj__ser;
+mod agg_empty_rel__par;
+mod agg_const_args__exppar;
+mod disj__gen;
+mod disj__perm1;
+mod disj_nested__pari;
+mod rep_expr__ser;
+mod multi_head_disj__exp;
+mod mac_basic__par;
+mod mac_basic__src1;
+mod mac_capture__ser;
+mod mac_nested__exp;
+mod mac_disj__par;
 
 fn lookup(name: &str) -> fn() -> Box<dyn Driven> {
    match name {
@@ -129,16 +131,18 @@ fn lookup(name: &str) -> fn() -> Box<dyn Driven> {
       "agg_depth__to" => agg_depth__to::make,
       "agg_user__par" => agg_user__par::make,
       "agg_bound_mix__par" => agg_bound_mix__par::make,
-      "disj__par" => disj__par::make,
-      "disj__src1" => disj__src1::make,
-      "disj__ren" => disj__ren::make,
-      "disj_nested__exppar" => disj_nested__exppar::make,
-      "rep_expr__pari" => rep_expr__pari::make,
-      "neg_in_disj__ser" => neg_in_disj__ser::make,
-      "mac_basic__to" => mac_basic__to::make,
-      "mac_basic__redecl" => mac_basic__redecl::make,
-      "mac_capture__pari" => mac_capture__pari::make,
-      "mac_disj__ser" => mac_disj__ser::make,
+      "agg_empty_rel__par" => agg_empty_rel__par::make,
+      "agg_const_args__exppar" => agg_const_args__exppar::make,
+      "disj__gen" => disj__gen::make,
+      "disj__perm1" => disj__perm1::make,
+      "disj_nested__pari" => disj_nested__pari::make,
+      "rep_expr__ser" => rep_expr__ser::make,
+      "multi_head_disj__exp" => multi_head_disj__exp::make,
+      "mac_basic__par" => mac_basic__par::make,
+      "mac_basic__src1" => mac_basic__src1::make,
+      "mac_capture__ser" => mac_capture__ser::make,
+      "mac_nested__exp" => mac_nested__exp::make,
+      "mac_disj__par" => mac_disj__par::make,
       _ => panic!("no such program variant in this shard: {}", name),
    }
 }
